@@ -7,6 +7,9 @@ package signaling
 // ten second dial-out timeout costs nothing.  A panic in a server goroutine
 // (hub main loop, bus subscriber) is not recoverable and kills this process;
 // vC11Run therefore flushes the op list of a case *before* executing it.
+// A server goroutine that waits for a mutex for ever is NOT durably blocked:
+// synctest.Wait() hangs.  A watchdog on the real clock (vC11Watchdog) turns that
+// into a `hung@<where>` output of the running step and ends the process.
 
 import (
 	"bufio"
@@ -25,12 +28,15 @@ import (
 	"net/http/httptest"
 	"net/url"
 	"os"
+	"regexp"
+	"runtime"
 	"sort"
 	"strconv"
 	"strings"
 	"sync"
 	"testing"
 	"testing/synctest"
+	"time"
 
 	"github.com/dlintw/goconf"
 	"github.com/gorilla/mux"
@@ -258,7 +264,9 @@ func newVC11Server(t *testing.T) *vC11Server {
 	s.router = r
 	s.sigSrv = &http.Server{Handler: r, ErrorLog: log.New(io.Discard, "", 0)}
 	go s.sigSrv.Serve(s.sigL) // nolint
-	s.httpc = &http.Client{Transport: &http.Transport{DialContext: s.sigL.dial, DisableKeepAlives: true}}
+	// the reply has to come within a budget of virtual time (the longest wait of a handler is the
+	// ten second dial-out timeout): a handler that never answers counts as "no reply"
+	s.httpc = &http.Client{Transport: &http.Transport{DialContext: s.sigL.dial, DisableKeepAlives: true}, Timeout: vC11ReplyBudget}
 	go s.hub.Run()
 	return s
 }
@@ -359,6 +367,20 @@ func (s *vC11Server) connectDialout(policy string) *vC11Client {
 	return c
 }
 
+// connectInternal registers an internal client without the dial-out feature: it can join rooms
+// and add virtual sessions.
+func (s *vC11Server) connectInternal() *vC11Client {
+	c := s.dialWs()
+	go c.reader()
+	random := "fedcba9876543210fedcba9876543210fedcba9876543210"
+	mac := hmac.New(sha256.New, []byte(vC11InternalSecret))
+	mac.Write([]byte(random)) // nolint
+	params, _ := json.Marshal(&ClientTypeInternalAuthParams{Random: random, Token: hex.EncodeToString(mac.Sum(nil)), Backend: vC11NcUrl})
+	s.hello(c, &HelloClientMessage{Version: HelloVersionV1, Features: []string{"virtual-sessions"},
+		Auth: &HelloClientMessageAuth{Type: HelloClientTypeInternal, Params: params}})
+	return c
+}
+
 func (c *vC11Client) send(m *ClientMessage) {
 	data, _ := json.Marshal(m)
 	c.wmu.Lock()
@@ -435,117 +457,466 @@ func vC11EventName(m *ServerMessage) string {
 // ---------- executing one case ----------
 
 const (
-	vC11Pc1 = "@c1@"
-	vC11Pc2 = "@c2@"
+	vC11Pc1       = "@c1@"
+	vC11Pc2       = "@c2@"
+	vC11ProbeRoom = "vprobe-room"
+	vC11ProbeUser = "vprobe-user"
+	vC11ProbeRsid = "rs-vprobe"
+	// virtual time the effect of a probe may take before the server counts as unresponsive
+	vC11ProbeBudget = 5 * time.Second
+	// virtual time an API request may take to be answered
+	vC11ReplyBudget = 30 * time.Second
 )
 
 type vC11World struct {
 	s      *vC11Server
-	room   string
-	c1, c2 *vC11Client
+	cl     [5]*vC11Client // c1..c4
+	ci     *vC11Client    // internal client without the dial-out feature
+	cp     *vC11Client    // probe client: never part of the observation
+	virt   map[int]string // virtual session n -> public id
 	closed map[*vC11Client]bool
+	ready  bool
 }
 
-func (w *vC11World) setup(n int, room, dial string) {
-	w.room = room
-	w.closed = map[*vC11Client]bool{}
-	if n > 0 {
-		w.c1 = w.s.connect("u1")
-		w.c2 = w.s.connect("u2")
-		w.s.join(w.c1, room, "rs1")
-		synctest.Wait()
-		w.c1.take()
-		w.c2.take()
+func (w *vC11World) live(c *vC11Client) bool { return c != nil && !w.closed[c] }
+
+func (w *vC11World) session(c *vC11Client) *ClientSession {
+	if !w.live(c) {
+		return nil
 	}
+	cs, _ := w.s.hub.GetSessionByPublicId(c.publicId).(*ClientSession)
+	return cs
+}
+
+// rsidInUse: a live session joined a room with this Nextcloud session id.
+func (w *vC11World) rsidInUse(rs string) bool {
+	for _, c := range append(w.cl[1:], w.ci) {
+		if cs := w.session(c); cs != nil && cs.GetRoom() != nil && cs.RoomSessionId() == rs {
+			return true
+		}
+	}
+	return false
+}
+
+func (w *vC11World) init(dial string) {
+	w.closed = map[*vC11Client]bool{}
+	w.virt = map[int]string{}
+	w.cp = w.s.connect(vC11ProbeUser)
 	if dial != "none" {
 		w.s.connectDialout(dial)
 	}
 	synctest.Wait()
+	w.ready = true
+}
+
+func (w *vC11World) setup(n int, room, dial string) {
+	w.init(dial)
+	if n > 0 {
+		w.conn(1, "u1")
+		w.conn(2, "u2")
+		w.join(w.cl[1], room, "rs1")
+	}
+	w.quiet()
+}
+
+// quiet: wait for quiescence and forget what the clients received (world ops are not observed).
+func (w *vC11World) quiet() {
+	synctest.Wait()
+	for _, c := range append(w.cl[1:], w.ci, w.cp) {
+		if c != nil {
+			c.take()
+		}
+	}
+}
+
+func (w *vC11World) conn(k int, user string) bool {
+	if k < 1 || k > 4 || w.live(w.cl[k]) {
+		return false
+	}
+	w.cl[k] = w.s.connect(user)
+	return true
+}
+
+func (w *vC11World) join(c *vC11Client, room, rsid string) bool {
+	cs := w.session(c)
+	if cs == nil || room == "" || rsid == "" || w.rsidInUse(rsid) {
+		return false
+	}
+	if r := cs.GetRoom(); r != nil && r.Id() == room {
+		return false
+	}
+	w.s.join(c, room, rsid)
+	return true
+}
+
+func (w *vC11World) leave(c *vC11Client) bool {
+	cs := w.session(c)
+	if cs == nil || cs.GetRoom() == nil {
+		return false
+	}
+	c.send(&ClientMessage{Id: "l", Type: "room", Room: &RoomClientMessage{RoomId: ""}})
+	return true
+}
+
+func (w *vC11World) bye(c *vC11Client) bool {
+	if w.session(c) == nil {
+		return false
+	}
+	c.send(&ClientMessage{Id: "b", Type: "bye", Bye: &ByeClientMessage{}})
+	synctest.Wait()
+	c.conn.Close()
+	<-c.done
+	w.closed[c] = true
+	return true
+}
+
+func (w *vC11World) iconn() bool {
+	if w.live(w.ci) {
+		return false
+	}
+	w.ci = w.s.connectInternal()
+	return true
+}
+
+func (w *vC11World) virtAdd(n int, room string, flags int) bool {
+	cs := w.session(w.ci)
+	if cs == nil || n < 1 || n > 2 || w.virt[n] != "" || room == "" {
+		return false
+	}
+	if w.s.hub.GetRoomForBackend(room, cs.Backend()) == nil {
+		return false
+	}
+	vid := fmt.Sprintf("v%d", n)
+	msg := &AddSessionInternalClientMessage{UserId: "vu" + vid}
+	msg.SessionId = vid
+	msg.RoomId = room
+	if flags != 0 {
+		msg.InCall = &flags
+	}
+	w.ci.send(&ClientMessage{Id: "v", Type: "internal", Internal: &InternalClientMessage{Type: "addsession", AddSession: msg}})
+	synctest.Wait()
+	w.s.hub.mu.RLock()
+	sid, found := w.s.hub.virtualSessions[GetVirtualSessionId(cs, vid)]
+	var pub string
+	if found {
+		if sess := w.s.hub.sessions[sid]; sess != nil {
+			pub = sess.PublicId()
+		}
+	}
+	w.s.hub.mu.RUnlock()
+	if pub == "" {
+		panic("harness: virtual session not created")
+	}
+	w.virt[n] = pub
+	return true
+}
+
+func (w *vC11World) virtRemove(n int) bool {
+	cs := w.session(w.ci)
+	if cs == nil || w.virt[n] == "" {
+		return false
+	}
+	sess := w.s.hub.GetSessionByPublicId(w.virt[n])
+	if sess == nil {
+		return false
+	}
+	room := ""
+	if r := sess.GetRoom(); r != nil {
+		room = r.Id()
+	}
+	if room == "" {
+		room = "gone"
+	}
+	msg := &RemoveSessionInternalClientMessage{}
+	msg.SessionId = fmt.Sprintf("v%d", n)
+	msg.RoomId = room
+	w.ci.send(&ClientMessage{Id: "v", Type: "internal", Internal: &InternalClientMessage{Type: "removesession", RemoveSession: msg}})
+	delete(w.virt, n)
+	return true
+}
+
+// worldOp executes a scripted change of the world; "skip" when its precondition does not hold
+// (the driver decides the same from its own state, so shrunk op lists stay meaningful).
+func (w *vC11World) worldOp(f []string) string {
+	ok := false
+	num := func(s string) int { n, _ := strconv.Atoi(s); return n }
+	client := func(s string) *vC11Client {
+		if k := num(s); k >= 1 && k <= 4 {
+			return w.cl[k]
+		}
+		return nil
+	}
+	switch {
+	case f[0] == "conn" && len(f) == 3:
+		ok = w.conn(num(f[1]), vDec(f[2]))
+	case f[0] == "join" && len(f) == 4:
+		ok = w.join(client(f[1]), vDec(f[2]), vDec(f[3]))
+	case f[0] == "leave" && len(f) == 2:
+		ok = w.leave(client(f[1]))
+	case f[0] == "bye" && len(f) == 2:
+		ok = w.bye(client(f[1]))
+	case f[0] == "iconn" && len(f) == 1:
+		ok = w.iconn()
+	case f[0] == "ijoin" && len(f) == 3:
+		ok = w.join(w.ci, vDec(f[1]), vDec(f[2]))
+	case f[0] == "virt" && len(f) == 4:
+		ok = w.virtAdd(num(f[1]), vDec(f[2]), num(f[3]))
+	case f[0] == "vrem" && len(f) == 2:
+		ok = w.virtRemove(num(f[1]))
+	default:
+		return "bad-op"
+	}
+	w.quiet()
+	if !ok {
+		return "skip"
+	}
+	return "ok"
 }
 
 func (w *vC11World) subst(body []byte) []byte {
-	if w.c1 != nil {
-		body = bytes.ReplaceAll(body, []byte(vC11Pc1), []byte(w.c1.publicId))
-		body = bytes.ReplaceAll(body, []byte(vC11Pc2), []byte(w.c2.publicId))
+	for k := 1; k <= 4; k++ {
+		if w.cl[k] != nil {
+			body = bytes.ReplaceAll(body, []byte(fmt.Sprintf("@c%d@", k)), []byte(w.cl[k].publicId))
+		}
+	}
+	if w.ci != nil {
+		body = bytes.ReplaceAll(body, []byte("@ci@"), []byte(w.ci.publicId))
+	}
+	for n, pub := range w.virt {
+		body = bytes.ReplaceAll(body, []byte(fmt.Sprintf("@v%d@", n)), []byte(pub))
 	}
 	return body
 }
 
-// drain returns the names of everything the two clients received since the last call.
-func (w *vC11World) drain(skipProbe string) (events []string, probeSeen bool) {
-	for i, c := range []*vC11Client{w.c1, w.c2} {
+// drain returns the names of everything the observed clients received since the last call.
+// Traffic caused by the liveness probes (it carries the probe marker or names the probe client)
+// is not part of the observation; probes lists the markers seen per client.
+func (w *vC11World) drain() (events []string, probes map[*vC11Client]map[string]bool) {
+	probes = map[*vC11Client]map[string]bool{}
+	names := []string{"", "c1", "c2", "c3", "c4", "ci"}
+	for i, c := range append(w.cl[1:], w.ci) {
 		if c == nil {
 			continue
 		}
 		msgs, closed := c.take()
 		for _, m := range msgs {
-			if skipProbe != "" && m.Type == "event" && m.Event != nil && m.Event.Message != nil &&
-				strings.Contains(string(m.Event.Message.Data), skipProbe) {
-				if i == 0 {
-					probeSeen = true
+			raw, _ := json.Marshal(m)
+			if p := bytes.Index(raw, []byte("vpmark-")); p >= 0 || bytes.Contains(raw, []byte(w.cp.publicId)) || bytes.Contains(raw, []byte(vC11ProbeRoom)) {
+				if p >= 0 {
+					end := p
+					for end < len(raw) && raw[end] != '"' && raw[end] != '\\' {
+						end++
+					}
+					if probes[c] == nil {
+						probes[c] = map[string]bool{}
+					}
+					probes[c][vC11EventName(m)+"/"+string(raw[p:end])] = true
 				}
 				continue
 			}
-			events = append(events, fmt.Sprintf("c%d:%s", i+1, vC11EventName(m)))
+			events = append(events, names[i+1]+":"+vC11EventName(m))
 		}
 		if closed && !w.closed[c] {
 			w.closed[c] = true
-			events = append(events, fmt.Sprintf("c%d:closed", i+1))
+			events = append(events, names[i+1]+":closed")
 		}
 	}
 	return
 }
 
-func (w *vC11World) c1InRoom() bool {
-	if w.c1 == nil || w.closed[w.c1] {
-		return false
-	}
-	sess := w.s.hub.GetSessionByPublicId(w.c1.publicId)
-	return sess != nil && sess.GetRoom() != nil
-}
-
+// digest: the rooms of the hub with their properties and the labels of the sessions in the call.
 func (w *vC11World) digest() string {
-	r, i, p := "0", "0", ""
-	w.s.hub.ru.RLock()
-	var room *Room
-	for _, x := range w.s.hub.rooms {
-		room = x
-	}
-	w.s.hub.ru.RUnlock()
-	if room != nil {
-		r = "1"
-		room.mu.RLock()
-		p = string(room.properties)
-		room.mu.RUnlock()
-		if w.c1 != nil {
-			if sess := w.s.hub.GetSessionByPublicId(w.c1.publicId); sess != nil && room.IsSessionInCall(sess) {
-				i = "1"
-			}
+	label := map[string]string{}
+	for k := 1; k <= 4; k++ {
+		if w.cl[k] != nil {
+			label[w.cl[k].publicId] = fmt.Sprintf("c%d", k)
 		}
 	}
-	return "r" + r + "i" + i + "p" + vEnc(p)
+	if w.ci != nil {
+		label[w.ci.publicId] = "ci"
+	}
+	for n, pub := range w.virt {
+		label[pub] = fmt.Sprintf("v%d", n)
+	}
+	w.s.hub.ru.RLock()
+	var rooms []*Room
+	for _, x := range w.s.hub.rooms {
+		rooms = append(rooms, x)
+	}
+	w.s.hub.ru.RUnlock()
+	sort.Slice(rooms, func(i, j int) bool { return rooms[i].Id() < rooms[j].Id() })
+	var parts []string
+	for _, room := range rooms {
+		room.mu.RLock()
+		p := string(room.properties)
+		var in []string
+		for sess := range room.inCallSessions {
+			l := label[sess.PublicId()]
+			if l == "" {
+				l = "other"
+			}
+			in = append(in, l)
+		}
+		room.mu.RUnlock()
+		sort.Strings(in)
+		i := "-"
+		if len(in) > 0 {
+			i = strings.Join(in, "+")
+		}
+		parts = append(parts, vEnc(room.Id())+"="+vEnc(p)+"="+i)
+	}
+	if len(parts) == 0 {
+		return "-"
+	}
+	return strings.Join(parts, ";")
+}
+
+// cpMove sends the probe client into a room ("" = out of its room); true when the server confirmed.
+func (w *vC11World) cpMove(room string) bool {
+	w.cp.take()
+	w.cp.send(&ClientMessage{Id: "p", Type: "room", Room: &RoomClientMessage{RoomId: room, SessionId: vC11ProbeRsid}})
+	synctest.Wait()
+	msgs, _ := w.cp.take()
+	for _, m := range msgs {
+		if m.Type == "room" && m.Room != nil && m.Room.RoomId == room {
+			return true
+		}
+	}
+	time.Sleep(vC11ProbeBudget)
+	synctest.Wait()
+	msgs, _ = w.cp.take()
+	for _, m := range msgs {
+		if m.Type == "room" && m.Room != nil && m.Room.RoomId == room {
+			return true
+		}
+	}
+	return false
+}
+
+// probe: is the server still doing its work?  In every room with a connected member and in a
+// room of the probe client's own (so that "another room" always exists):
+//   - a participants request (API handler -> bus -> room subscriber -> hub main loop -> room ->
+//     bus -> session -> connection) and a room message (without the hub main loop) must arrive
+//     at the member within the budget of virtual time,
+//   - the probe client must be able to join and to leave (hub and room tables, their mutexes).
+//
+// Events caused at observed clients are returned (the probes' own traffic is filtered out).
+func (w *vC11World) probe(idx int) (why string, extra []string) {
+	fail := func(r string) {
+		if why == "" {
+			why = r
+		}
+	}
+	type target struct {
+		room string
+		c    *vC11Client
+		rsid string
+	}
+	vC11Beat("probe:own-room")
+	if !w.cpMove(vC11ProbeRoom) {
+		fail("probe-client-cannot-open-a-room")
+	}
+	targets := []target{{vC11ProbeRoom, w.cp, vC11ProbeRsid}}
+	seen := map[string]bool{}
+	for _, c := range append(w.cl[1:], w.ci) {
+		cs := w.session(c)
+		if cs == nil {
+			continue
+		}
+		if r := cs.GetRoom(); r != nil && !seen[r.Id()] && cs.RoomSessionId() != "" {
+			seen[r.Id()] = true
+			targets = append(targets, target{r.Id(), c, cs.RoomSessionId()})
+		}
+	}
+	for ti, t := range targets {
+		vC11Beat("probe:post:" + t.room)
+		nonce := fmt.Sprintf("vpmark-%d-%d", idx, ti)
+		pd, _ := json.Marshal(map[string]interface{}{"type": "participants", "participants": map[string]interface{}{
+			"users": []map[string]interface{}{{"sessionId": t.rsid, "marker": nonce}}}})
+		if st := w.s.post(t.room, pd); st != "200" {
+			fail("participants-request-answered-" + st + ":" + vEnc(t.room))
+		}
+		if st := w.s.post(t.room, []byte(`{"type":"message","message":{"data":{"probe":"`+nonce+`"}}}`)); st != "200" {
+			fail("message-request-answered-" + st + ":" + vEnc(t.room))
+		}
+	}
+	vC11Beat("probe:wait")
+	synctest.Wait()
+	got := map[*vC11Client]map[string]bool{}
+	collect := func() string {
+		evs, probes := w.drain()
+		extra = append(extra, evs...)
+		for c, m := range probes {
+			if got[c] == nil {
+				got[c] = map[string]bool{}
+			}
+			for k := range m {
+				got[c][k] = true
+			}
+		}
+		msgs, _ := w.cp.take()
+		for _, m := range msgs {
+			raw, _ := json.Marshal(m)
+			if p := bytes.Index(raw, []byte("vpmark-")); p >= 0 {
+				end := p
+				for end < len(raw) && raw[end] != '"' && raw[end] != '\\' {
+					end++
+				}
+				if got[w.cp] == nil {
+					got[w.cp] = map[string]bool{}
+				}
+				got[w.cp][vC11EventName(m)+"/"+string(raw[p:end])] = true
+			}
+		}
+		missing := ""
+		for ti, t := range targets {
+			nonce := fmt.Sprintf("vpmark-%d-%d", idx, ti)
+			// a member that the request itself removed from the room is no witness any more
+			if t.c != w.cp {
+				if cs := w.session(t.c); cs == nil || cs.GetRoom() == nil || cs.GetRoom().Id() != t.room {
+					continue
+				}
+			}
+			if !got[t.c]["participants-update/"+nonce] && missing == "" {
+				missing = "participants-request-without-effect:" + vEnc(t.room)
+			}
+			if !got[t.c]["room-message/"+nonce] && missing == "" {
+				missing = "room-message-not-delivered:" + vEnc(t.room)
+			}
+		}
+		return missing
+	}
+	if collect() != "" {
+		vC11Beat("probe:budget")
+		time.Sleep(vC11ProbeBudget)
+		synctest.Wait()
+		if m := collect(); m != "" {
+			fail(m)
+		}
+	}
+	for _, t := range targets[1:] {
+		vC11Beat("probe:join:" + t.room)
+		if !w.cpMove(t.room) {
+			fail("probe-client-cannot-join:" + vEnc(t.room))
+		}
+	}
+	vC11Beat("probe:leave")
+	if !w.cpMove("") {
+		fail("probe-client-cannot-leave")
+	}
+	evs, _ := w.drain()
+	extra = append(extra, evs...)
+	return
 }
 
 func (w *vC11World) request(idx int, room string, body []byte) string {
+	vC11Beat("request")
 	st := w.s.post(room, w.subst(body))
+	vC11Note(st)
 	synctest.Wait()
-	evs, _ := w.drain("")
-	// liveness: a request that passes through the hub main loop and is ignored there, then a
-	// room message that has to come out at the member of the room
-	live := true
-	nonce := fmt.Sprintf("vprobe-%d", idx)
-	if w.s.post(w.room, []byte(`{"type":"incall","incall":{"incall":"x","all":true}}`)) != "200" {
-		live = false
-	}
-	if w.s.post(w.room, []byte(`{"type":"message","message":{"data":{"probe":"`+nonce+`"}}}`)) != "200" {
-		live = false
-	}
-	synctest.Wait()
-	inRoom := w.c1InRoom()
-	extra, seen := w.drain(nonce)
-	if inRoom && !seen {
-		live = false
-	}
+	evs, _ := w.drain()
+	why, extra := w.probe(idx)
+	vC11Beat("digest")
 	evs = append(evs, extra...)
 	sort.Strings(evs)
 	var uniq []string
@@ -559,8 +930,8 @@ func (w *vC11World) request(idx int, room string, body []byte) string {
 		ev = strings.Join(uniq, ",")
 	}
 	l := "live"
-	if !live {
-		l = "dead"
+	if why != "" {
+		l = "dead:" + why
 	}
 	return st + " " + l + " " + ev + " " + w.digest()
 }
@@ -568,26 +939,206 @@ func (w *vC11World) request(idx int, room string, body []byte) string {
 func vC11Exec(t *testing.T, c *vCase) {
 	synctest.Test(t, func(t *testing.T) {
 		w := &vC11World{s: newVC11Server(t)}
-		defer w.s.close()
-		ready := false
+		defer func() {
+			w.s.close()
+		}()
 		for idx, line := range c.Ops {
 			f := strings.Fields(line)
 			out := "bad-op"
-			if len(f) > 0 && f[0] == "setup" && len(f) == 4 && !ready {
-				n, _ := strconv.Atoi(f[1])
-				w.setup(n, vDec(f[2]), f[3])
-				ready = true
-				out = "ok"
+			vC11Step(idx)
+			if len(f) > 0 && f[0] == "setup" {
+				if len(f) == 4 && !w.ready {
+					n, _ := strconv.Atoi(f[1])
+					w.setup(n, vDec(f[2]), f[3])
+					out = "ok"
+				}
 			} else if len(f) == 3 && (f[0] == "req" || f[0] == "raw") {
-				if !ready {
+				if !w.ready {
 					w.setup(0, "100", "none")
-					ready = true
 				}
 				out = w.request(idx, vDec(f[1]), []byte(vDec(f[2])))
+			} else if len(f) > 0 {
+				if !w.ready {
+					w.setup(0, "100", "none")
+				}
+				out = w.worldOp(f)
 			}
 			c.Impl = append(c.Impl, out)
+			vC11Done(out)
 		}
+		// shutting down is watched too: a lock left behind shows here at the latest
+		vC11Step(len(c.Ops))
 	})
+	vC11Step(-1)
+}
+
+// ---------- watchdog ----------
+//
+// A goroutine of the server that waits for a mutex is not "durably blocked" for testing/synctest:
+// when the code under test leaves a lock behind, synctest.Wait() never returns and virtual time
+// stands still.  The watchdog runs outside the bubbles on the real clock.  It declares the running
+// step hung when nothing moved for a while and the same goroutine sits in a mutex wait in two
+// stack dumps (or after a long time whatever the goroutines do), writes the case with
+// `<status> hung@<where> …` for the step, and ends the process: the bubble cannot be left any more.
+
+var vC11Prog struct {
+	mu     sync.Mutex
+	c      *vCase
+	idx    int    // op being executed (-1: none)
+	status string // HTTP status of the running request, when it came back
+	phase  string
+	beat   int64
+	impl   []string
+	onHang func(impl []string)
+}
+
+func vC11Step(idx int) {
+	vC11Prog.mu.Lock()
+	vC11Prog.idx = idx
+	vC11Prog.status = ""
+	vC11Prog.phase = "start"
+	vC11Prog.beat++
+	vC11Prog.mu.Unlock()
+}
+
+func vC11Beat(phase string) {
+	vC11Prog.mu.Lock()
+	vC11Prog.phase = phase
+	vC11Prog.beat++
+	vC11Prog.mu.Unlock()
+}
+
+func vC11Note(status string) {
+	vC11Prog.mu.Lock()
+	vC11Prog.status = status
+	vC11Prog.beat++
+	vC11Prog.mu.Unlock()
+}
+
+func vC11Done(out string) {
+	vC11Prog.mu.Lock()
+	vC11Prog.impl = append(vC11Prog.impl, out)
+	vC11Prog.beat++
+	vC11Prog.mu.Unlock()
+}
+
+var vC11MutexWait = regexp.MustCompile(`(?m)^goroutine (\d+) \[(sync\.(?:RW)?Mutex\.[A-Za-z]+|semacquire)[^\]]*\]:\n((?:.+\n)+)`)
+
+// vC11MutexWaiters: goroutine id -> the first frames of the repository's own code, for every
+// goroutine that waits for a mutex.
+func vC11MutexWaiters() map[string]string {
+	buf := make([]byte, 1<<22)
+	buf = buf[:runtime.Stack(buf, true)]
+	res := map[string]string{}
+	for _, m := range vC11MutexWait.FindAllStringSubmatch(string(buf), -1) {
+		var frames []string
+		for _, line := range strings.Split(m[3], "\n") {
+			if !strings.HasPrefix(line, "github.com/strukturag/nextcloud-spreed-signaling.") {
+				continue
+			}
+			fn := strings.TrimPrefix(line, "github.com/strukturag/nextcloud-spreed-signaling.")
+			if p := strings.LastIndex(fn, "("); p > 0 {
+				fn = fn[:p]
+			}
+			fn = strings.NewReplacer("(*", "", ")", "").Replace(fn)
+			if strings.HasPrefix(fn, "vC11") || strings.HasPrefix(fn, "TestVerif") {
+				frames = append(frames, "harness")
+				break
+			}
+			frames = append(frames, fn)
+			if len(frames) == 3 {
+				break
+			}
+		}
+		if len(frames) > 0 {
+			res[m[1]] = strings.Join(frames, "<")
+		}
+	}
+	return res
+}
+
+func vC11Watchdog(stop chan struct{}) {
+	quiet := 1500 * time.Millisecond
+	hard := 10 * time.Second
+	if s := os.Getenv("VERIF_C11_HANG_MS"); s != "" {
+		if v, err := strconv.Atoi(s); err == nil && v > 0 {
+			quiet = time.Duration(v) * time.Millisecond
+		}
+	}
+	var lastBeat int64 = -1
+	since := time.Now()
+	var suspects map[string]string
+	for {
+		select {
+		case <-stop:
+			return
+		case <-time.After(100 * time.Millisecond):
+		}
+		vC11Prog.mu.Lock()
+		beat, idx := vC11Prog.beat, vC11Prog.idx
+		vC11Prog.mu.Unlock()
+		if beat != lastBeat || idx < 0 {
+			lastBeat, since, suspects = beat, time.Now(), nil
+			continue
+		}
+		idle := time.Since(since)
+		if idle < quiet {
+			continue
+		}
+		where := ""
+		now := vC11MutexWaiters()
+		if suspects != nil {
+			var ids []string
+			for id := range now {
+				if _, was := suspects[id]; was && now[id] != "harness" {
+					ids = append(ids, id)
+				}
+			}
+			sort.Strings(ids)
+			if len(ids) > 0 {
+				var ws []string
+				for _, id := range ids {
+					ws = append(ws, now[id])
+				}
+				sort.Strings(ws)
+				where = ws[0]
+			}
+		}
+		suspects = now
+		if where == "" && idle < hard {
+			continue
+		}
+		if where == "" {
+			where = "no-progress"
+		}
+		vC11Prog.mu.Lock()
+		st, phase := vC11Prog.status, vC11Prog.phase
+		impl := append([]string(nil), vC11Prog.impl...)
+		onHang := vC11Prog.onHang
+		vC11Prog.mu.Unlock()
+		if st == "" {
+			st = "neterr"
+		}
+		closing := false
+		vC11Prog.mu.Lock()
+		if vC11Prog.c != nil && idx >= len(vC11Prog.c.Ops) {
+			closing = true
+		}
+		vC11Prog.mu.Unlock()
+		if closing {
+			// every op was answered, the server does not shut down: reported as a crash of the case
+			vC11Prog.mu.Lock()
+			vC11Prog.c.Crash = "server hangs at shutdown: " + where
+			vC11Prog.mu.Unlock()
+		} else {
+			impl = append(impl, st+" hung@"+vEnc(where)+"/"+vEnc(phase)+" - -")
+		}
+		fmt.Fprintf(os.Stderr, "C11 harness: step %d hung (%s, phase %s); goroutines waiting for a mutex: %v\n", idx, where, phase, now)
+		if onHang != nil {
+			onHang(impl)
+		}
+		os.Exit(0)
+	}
 }
 
 // ---------- generator ----------
@@ -701,6 +1252,24 @@ type vC11Gen struct {
 	e    *vEnv
 	n    int  // clients present
 	huge bool // allow huge lists in this document
+	// vocabulary of the world the case opens with (nil = the one-room world of `setup`)
+	ids   []string // Nextcloud session ids worth naming: of members of any room, of sessions that left
+	pubs  []string // placeholders of public session ids
+	safeU []string // user ids without a session in any room (a disinvite of the others would race)
+}
+
+func (g *vC11Gen) rsid() string {
+	if len(g.ids) == 0 {
+		return "rs1"
+	}
+	return g.r.pick(g.ids)
+}
+
+func (g *vC11Gen) pub() string {
+	if len(g.pubs) == 0 {
+		return vC11Pc1
+	}
+	return g.r.pick(g.pubs)
 }
 
 func (g *vC11Gen) users(avoidU1 bool) *vJ {
@@ -709,7 +1278,9 @@ func (g *vC11Gen) users(avoidU1 bool) *vJ {
 	k := g.r.intn(4)
 	for i := 0; i < k; i++ {
 		u := g.r.pick(pool)
-		if avoidU1 && u == "u1" {
+		if avoidU1 && g.safeU != nil {
+			u = g.r.pick(g.safeU)
+		} else if avoidU1 && u == "u1" {
 			u = "u3"
 		}
 		a.xs = append(a.xs, jStr(u))
@@ -746,7 +1317,7 @@ func (g *vC11Gen) entry() *vJ {
 	add := func(k string, v *vJ) { e.ks = append(e.ks, k); e.xs = append(e.xs, v) }
 	switch g.r.intn(12) {
 	case 0, 1, 2, 3, 4:
-		add("sessionId", jStr("rs1"))
+		add("sessionId", jStr(g.rsid()))
 	case 5:
 		add("sessionId", jStr("rsX"))
 	case 6:
@@ -758,7 +1329,7 @@ func (g *vC11Gen) entry() *vJ {
 	case 9:
 		add("sessionid", jStr("rs1"))
 	case 10:
-		add("sessionId", jStr(vC11Pc1))
+		add("sessionId", jStr(g.pub()))
 	case 11:
 	}
 	switch g.r.intn(9) {
@@ -817,13 +1388,13 @@ func (g *vC11Gen) template(typ string) *vJ {
 	case "invite":
 		return jObj("type", jStr(typ), "invite", jObj("userids", g.users(false), "alluserids", g.users(false), "properties", g.props()))
 	case "disinvite":
-		if r.chance(1, 2) {
+		if r.chance(1, 2) && g.safeU == nil {
 			// by user id
 			return jObj("type", jStr(typ), "disinvite", jObj("userids", g.users(false), "sessionids", jStrs("rsX", "0"),
 				"alluserids", g.users(false), "properties", g.props()))
 		}
 		// by Nextcloud session id (user-addressed parts avoid u1: the two paths to c1 would race)
-		return jObj("type", jStr(typ), "disinvite", jObj("userids", g.users(true), "sessionids", jStrs(r.pick([]string{"rs1", "rs1", "rsX"}), "0"),
+		return jObj("type", jStr(typ), "disinvite", jObj("userids", g.users(true), "sessionids", jStrs(r.pick([]string{g.rsid(), g.rsid(), "rsX"}), "0"),
 			"alluserids", g.users(true), "properties", g.props()))
 	case "update":
 		return jObj("type", jStr(typ), "update", jObj("userids", g.users(false), "properties", g.props()))
@@ -850,13 +1421,13 @@ func (g *vC11Gen) template(typ string) *vJ {
 		var sess *vJ
 		switch r.intn(12) {
 		case 0, 1, 2:
-			sess = jStrs("rs1")
+			sess = jStrs(g.rsid())
 		case 3:
-			sess = jStrs("rsX", "0", "rs1")
+			sess = jStrs("rsX", "0", g.rsid())
 		case 4:
-			sess = jObj("rs1", jObj("x", jNum("1")), "rsX", jNull())
+			sess = jObj(g.rsid(), jObj("x", jNum("1")), "rsX", jNull())
 		case 5:
-			sess = jObj("rs1", jNull())
+			sess = jObj(g.rsid(), jNull())
 		case 6:
 			sess = jArr()
 		case 7:
@@ -877,11 +1448,11 @@ func (g *vC11Gen) template(typ string) *vJ {
 		}
 		if r.chance(1, 4) {
 			o.ks = append(o.ks, "sessionslist")
-			o.xs = append(o.xs, jStrs(vC11Pc1, "zz", ""))
+			o.xs = append(o.xs, jStrs(g.pub(), "zz", ""))
 		}
 		if r.chance(1, 5) {
 			o.ks = append(o.ks, "sessionsmap")
-			o.xs = append(o.xs, jObj(vC11Pc2, jObj("d", jNum("1")), "a b", jNull()))
+			o.xs = append(o.xs, jObj(g.pub(), jObj("d", jNum("1")), "a b", jNull()))
 		}
 		return jObj("type", jStr(typ), "switchto", o)
 	case "dialout":
@@ -1061,6 +1632,47 @@ func (g *vC11Gen) rawBytes() string {
 	}
 }
 
+// vC11Opening: a scripted way into a world with more than the one room of `setup`.
+type vC11Opening struct {
+	name     string
+	setup    string   // "<n> <room>" of the setup op
+	ops      []string // world ops after it
+	rooms    []string // rooms that exist afterwards
+	ids      []string // Nextcloud session ids of members (of any room)
+	stale    []string // session ids that were valid once
+	pubs     []string // placeholders of sessions that exist
+	internal bool
+}
+
+func vC11Openings() []vC11Opening {
+	return []vC11Opening{
+		{name: "two-rooms", setup: "1 100", ops: []string{"join 2 200 rs2"},
+			rooms: []string{"100", "200"}, ids: []string{"rs1", "rs2"}, pubs: []string{"@c1@", "@c2@"}},
+		{name: "three-clients", setup: "1 100", ops: []string{"join 2 200 rs2", "conn 3 u3", "join 3 100 rs3"},
+			rooms: []string{"100", "200"}, ids: []string{"rs1", "rs2", "rs3"}, pubs: []string{"@c1@", "@c2@", "@c3@"}},
+		{name: "left", setup: "1 100", ops: []string{"join 2 100 rs2", "leave 2"},
+			rooms: []string{"100"}, ids: []string{"rs1"}, stale: []string{"rs2"}, pubs: []string{"@c1@", "@c2@"}},
+		{name: "moved", setup: "1 100", ops: []string{"join 2 100 rs2", "join 2 200 rs2b"},
+			rooms: []string{"100", "200"}, ids: []string{"rs1", "rs2b"}, stale: []string{"rs2"}, pubs: []string{"@c1@", "@c2@"}},
+		{name: "bye", setup: "1 100", ops: []string{"conn 3 u1", "join 3 200 rs3", "join 2 200 rs2", "bye 3"},
+			rooms: []string{"100", "200"}, ids: []string{"rs1", "rs2"}, stale: []string{"rs3"}, pubs: []string{"@c1@", "@c2@", "@c3@"}},
+		{name: "room-gone", setup: "1 100", ops: []string{"join 2 200 rs2", "leave 2"},
+			rooms: []string{"100"}, ids: []string{"rs1"}, stale: []string{"rs2"}, pubs: []string{"@c1@", "@c2@"}},
+		{name: "same-user", setup: "1 100", ops: []string{"conn 3 u1", "join 3 200 rs3"},
+			rooms: []string{"100", "200"}, ids: []string{"rs1", "rs3"}, pubs: []string{"@c1@", "@c3@"}},
+		{name: "one-room-three", setup: "1 100", ops: []string{"join 2 100 rs2", "conn 3 u3", "join 3 100 rs3"},
+			rooms: []string{"100"}, ids: []string{"rs1", "rs2", "rs3"}, pubs: []string{"@c1@", "@c2@", "@c3@"}},
+		{name: "internal", setup: "1 100", ops: []string{"join 2 200 rs2", "iconn", "ijoin 100 rsi", "virt 1 100 1"},
+			rooms: []string{"100", "200"}, ids: []string{"rs1", "rs2", "rsi", "@v1@"}, pubs: []string{"@c1@", "@c2@", "@ci@", "@v1@"}, internal: true},
+		{name: "internal-other", setup: "1 100", ops: []string{"join 2 200 rs2", "iconn", "ijoin 200 rsi", "virt 1 200 0", "virt 2 100 1"},
+			rooms: []string{"100", "200"}, ids: []string{"rs1", "rs2", "rsi", "@v1@", "@v2@"}, pubs: []string{"@c1@", "@c2@", "@ci@", "@v1@", "@v2@"}, internal: true},
+		{name: "virtual-removed", setup: "1 100", ops: []string{"iconn", "ijoin 100 rsi", "virt 1 100 1", "virt 2 100 0", "vrem 1", "join 2 200 rs2"},
+			rooms: []string{"100", "200"}, ids: []string{"rs1", "rs2", "rsi", "@v2@"}, stale: []string{"@v1@"}, pubs: []string{"@c1@", "@ci@", "@v1@", "@v2@"}, internal: true},
+		{name: "from-nothing", setup: "0 100", ops: []string{"conn 1 u1", "conn 4 u4", "join 4 200 rs4", "join 1 room-a rs1"},
+			rooms: []string{"200", "room-a"}, ids: []string{"rs1", "rs4"}, pubs: []string{"@c1@", "@c4@"}},
+	}
+}
+
 func vC11GenCases(e *vEnv, r *vRand) []vCase {
 	// newVRand(seed+1) is newVRand(seed) shifted by one draw: decorrelate the seeds first
 	r = newVRand(r.u64() ^ (e.seed+1)*0xD1B54A32D192ED03)
@@ -1103,6 +1715,77 @@ func vC11GenCases(e *vEnv, r *vRand) []vCase {
 			tags = append(tags, tag)
 		}
 		cases = append(cases, vCase{Ops: ops, Tags: tags})
+	}
+	// worlds with several rooms: scripted openings, then requests whose vocabulary are the sessions of
+	// that world -- members of the target room, members of OTHER rooms of the same backend, sessions
+	// that left or said bye, an internal client and its virtual sessions -- sent to rooms that exist
+	// and to one that does not
+	{
+		n2 := e.scale(260, 6000)
+		ops := vC11Openings()
+		for i := 0; i < n2; i++ {
+			rr := r.fork()
+			o := ops[rr.intn(len(ops))]
+			g := &vC11Gen{r: rr, e: e, n: 1, ids: append(append([]string{}, o.ids...), o.stale...), pubs: o.pubs, safeU: []string{"u9", "", "u8"}}
+			dial := "none"
+			if !o.internal && rr.chance(1, 5) {
+				dial = rr.pick([]string{"accept", "error", "silent"})
+			}
+			cops := append([]string{"setup " + o.setup + " " + dial}, o.ops...)
+			tags := []string{"world:" + o.name}
+			k := 1 + rr.intn(4)
+			for j := 0; j < k; j++ {
+				target := rr.pick(append(append([]string{}, o.rooms...), o.rooms[0], "300"))
+				var doc string
+				if rr.chance(2, 3) {
+					typ := rr.pick([]string{"incall", "incall", "participants", "switchto", "disinvite", "update", "message", "delete", "invite"})
+					d := g.template(typ)
+					if rr.chance(1, 4) {
+						g.mutate(d)
+					}
+					doc = d.String()
+				} else {
+					doc, _ = g.document()
+				}
+				cops = append(cops, fmt.Sprintf("req %s %s", vEnc(target), vEnc(doc)))
+			}
+			cases = append(cases, vCase{Ops: cops, Tags: tags})
+		}
+		// systematic: every opening x every room (and an absent one) x every session id of that world x
+		// the request types that resolve session ids
+		for _, o := range ops {
+			for _, target := range append(append([]string{}, o.rooms...), "300") {
+				for _, id := range append(append([]string{}, o.ids...), o.stale...) {
+					one := func(v string) *vJ { return jArr(jObj("sessionId", jStr(id), "inCall", jNum(v))) }
+					docs := []*vJ{
+						jObj("type", jStr("incall"), "incall", jObj("incall", jNum("1"), "changed", one("1"), "users", one("1"))),
+						jObj("type", jStr("incall"), "incall", jObj("incall", jNum("0"), "changed", one("0"), "users", jArr())),
+						jObj("type", jStr("participants"), "participants", jObj("changed",
+							jArr(jObj("sessionId", jStr(id), "permissions", jStrs("publish-media"))), "users", jArr(jObj("sessionId", jStr(id))))),
+						jObj("type", jStr("switchto"), "switchto", jObj("roomid", jStr("400"), "sessions", jStrs(id))),
+						jObj("type", jStr("incall"), "incall", jObj("incall", jNum("1"), "all", jBool(true))),
+						jObj("type", jStr("incall"), "incall", jObj("incall", jNum("0"), "all", jBool(true))),
+						jObj("type", jStr("disinvite"), "disinvite", jObj("sessionids", jStrs(id))),
+						jObj("type", jStr("message"), "message", jObj("data", jObj("after", jStr(id)))),
+					}
+					cops := append([]string{"setup " + o.setup + " none"}, o.ops...)
+					for _, d := range docs {
+						cops = append(cops, fmt.Sprintf("req %s %s", vEnc(target), vEnc(d.String())))
+					}
+					cases = append(cases, vCase{Ops: cops, Tags: []string{"world:" + o.name, "foreign-systematic"}})
+				}
+			}
+			// public ids named directly (switchto's internal members), a room deleted with everybody inside
+			for _, target := range o.rooms {
+				cops := append([]string{"setup " + o.setup + " none"}, o.ops...)
+				cops = append(cops,
+					fmt.Sprintf("req %s %s", vEnc(target), vEnc(jObj("type", jStr("switchto"), "switchto", jObj("roomid", jStr("400"), "sessionslist", jStrs(o.pubs...))).String())),
+					fmt.Sprintf("req %s %s", vEnc(target), vEnc(jObj("type", jStr("update"), "update", jObj("properties", jObj("n", jNum("1")))).String())),
+					fmt.Sprintf("req %s %s", vEnc(target), vEnc(jObj("type", jStr("delete"), "delete", jObj("userids", jStrs("u9"))).String())),
+					fmt.Sprintf("req %s %s", vEnc(target), vEnc(jObj("type", jStr("message"), "message", jObj("data", jStr("after-delete"))).String())))
+				cases = append(cases, vCase{Ops: cops, Tags: []string{"world:" + o.name, "room-systematic"}})
+			}
+		}
 	}
 	// systematic block: every type x every member of the request and of its sub-object x
 	// {dropped, null, each wrong-typed value, emptied}; four requests per case
@@ -1226,14 +1909,40 @@ func vC11Run(t *testing.T, gen func(e *vEnv, r *vRand) []vCase, exec func(t *tes
 			pos += int64(len(data))
 		}
 	}
+	stop := make(chan struct{})
+	defer close(stop)
+	go vC11Watchdog(stop)
 	for i := range cases {
 		c := &cases[i]
 		started := vCase{Ops: c.Ops, Tags: append(append([]string(nil), c.Tags...), "started")}
 		write(&started, false)
+		vC11Prog.mu.Lock()
+		vC11Prog.c, vC11Prog.idx, vC11Prog.impl = c, -1, nil
+		vC11Prog.onHang = func(impl []string) {
+			// called by the watchdog while this goroutine is stuck inside the bubble
+			h := vCase{Ops: c.Ops, Impl: impl, Crash: c.Crash, Tags: append(append([]string(nil), c.Tags...), "hung")}
+			for len(h.Impl) < len(h.Ops) {
+				h.Impl = append(h.Impl, "unreached")
+			}
+			write(&h, true)
+			out.Sync() // nolint
+		}
+		vC11Prog.mu.Unlock()
 		func() {
 			defer func() {
 				if r := recover(); r != nil {
 					c.Crash = fmt.Sprint(r)
+					// a handler that never answered is still blocked when the bubble is left: the missing
+					// reply is in the step's output already, and that is the finding
+					if strings.HasPrefix(c.Crash, "deadlock: main bubble goroutine has exited") && len(c.Impl) == len(c.Ops) {
+						for _, l := range c.Impl {
+							if strings.HasPrefix(l, "neterr ") {
+								c.Crash = ""
+								c.Tags = append(c.Tags, "goroutines-left-blocked")
+								break
+							}
+						}
+					}
 				}
 			}()
 			exec(t, c)
